@@ -271,6 +271,99 @@ fn one_set_input(syms: &[u8], hint: Option<usize>, fail_at: Option<usize>, bound
     end_of_run_checks(&ZERO_BASE).map_err(|m| format!("{}: {m}", what()))
 }
 
+/// Zero-sized element type (its table still allocates one control byte per bucket).
+#[derive(Clone, Copy, PartialEq, Eq, Hash, Default, Debug)]
+struct ZK;
+impl<'de> Deserialize<'de> for ZK {
+    fn deserialize<D: Deserializer<'de>>(d: D) -> Result<Self, D::Error> {
+        u64::deserialize(d)?;
+        Ok(ZK)
+    }
+}
+
+/// Element layouts beyond the tracked pair: zero-sized and 64-byte elements, every hint, 0..2 entries.
+fn layout_hint_inputs() -> Result<u64, String> {
+    type ZSet = hashbrown::HashSet<ZK, PlanBuild, CheckAlloc>;
+    type ZMap = hashbrown::HashMap<ZK, ZK, PlanBuild, CheckAlloc>;
+    let mut n = 0;
+    for &hint in HINTS.iter() {
+        for len in 0..3usize {
+            for fail in [None, Some(len)] {
+                let entries: Vec<(u64, u64)> = (0..len as u64).map(|i| (i, i)).collect();
+                let what = |k: &str| format!("deserialize({k} of zero-sized elements, {len} entries, claimed size hint {:?}, error at {:?})", hint, fail);
+                // set
+                env::reset();
+                env::set_plan(&Plan::Zero.table());
+                let bound = ZSet::with_capacity_and_hasher_in(4096, PlanBuild::default(), CheckAlloc).allocation_size();
+                let mut src = Src { entries: entries.clone(), hint, fail_at: fail, pos: 0, produced: 0 };
+                env::with(|e| {
+                    e.log_requests = true;
+                    e.requests.clear();
+                });
+                let r = env::catch(|| ZSet::deserialize(&mut src));
+                let req = env::with(|e| {
+                    e.log_requests = false;
+                    std::mem::take(&mut e.requests)
+                });
+                let r = r.map_err(|m| format!("{}: panicked: {m}", what("set")))?;
+                if let Some(f) = req.first() {
+                    if f.0 > bound {
+                        return Err(format!("{}: first allocation request {} bytes exceeds the {} bytes of a 4096-entry hint", what("set"), f.0, bound));
+                    }
+                }
+                if let Ok(s) = &r {
+                    if s.len() != len.min(1) {
+                        return Err(format!("{}: result has {} elements", what("set"), s.len()));
+                    }
+                }
+                drop(r);
+                end_of_run_checks(&ZERO_BASE).map_err(|m| format!("{}: {m}", what("set")))?;
+                // in place
+                let mut place = ZSet::default();
+                let mut src = Src { entries: entries.clone(), hint, fail_at: fail, pos: 0, produced: 0 };
+                env::with(|e| {
+                    e.log_requests = true;
+                    e.requests.clear();
+                });
+                let r = env::catch(|| ZSet::deserialize_in_place(&mut src, &mut place));
+                let req = env::with(|e| {
+                    e.log_requests = false;
+                    std::mem::take(&mut e.requests)
+                });
+                r.map_err(|m| format!("{}: deserialize_in_place panicked: {m}", what("set")))?.ok();
+                if let Some(f) = req.first() {
+                    if f.0 > bound {
+                        return Err(format!("{}: deserialize_in_place: first allocation request {} bytes exceeds {}", what("set"), f.0, bound));
+                    }
+                }
+                drop(place);
+                // map
+                let boundm = ZMap::with_capacity_and_hasher_in(4096, PlanBuild::default(), CheckAlloc).allocation_size();
+                let mut src = Src { entries: entries.clone(), hint, fail_at: fail.map(|f| 2 * f), pos: 0, produced: 0 };
+                env::with(|e| {
+                    e.log_requests = true;
+                    e.requests.clear();
+                });
+                let r = env::catch(|| ZMap::deserialize(&mut src));
+                let req = env::with(|e| {
+                    e.log_requests = false;
+                    std::mem::take(&mut e.requests)
+                });
+                let r = r.map_err(|m| format!("{}: panicked: {m}", what("map")))?;
+                if let Some(f) = req.first() {
+                    if f.0 > boundm {
+                        return Err(format!("{}: first allocation request {} bytes exceeds the {} bytes of a 4096-entry hint", what("map"), f.0, boundm));
+                    }
+                }
+                drop(r);
+                end_of_run_checks(&ZERO_BASE).map_err(|m| format!("{}: {m}", what("map")))?;
+                n += 3;
+            }
+        }
+    }
+    Ok(n)
+}
+
 fn all_seqs(max_len: usize) -> Vec<Vec<u8>> {
     let mut out = vec![vec![]];
     let mut frontier = vec![vec![]];
@@ -369,9 +462,21 @@ impl Config for Adversarial {
         if let Some((rp, m)) = viol.into_inner().unwrap() {
             rep.violations.push(Viol { config: self.label(), message: m, replay: rp });
         }
+        if rep.violations.is_empty() {
+            match env::catch(layout_hint_inputs) {
+                Ok(Ok(k)) => rep.executions += k,
+                Ok(Err(m)) | Err(m) => rep.violations.push(Viol { config: self.label(), message: m, replay: json!({"kind": "zst"}) }),
+            }
+        }
         rep
     }
     fn replay(&self, rp: &Value) -> Result<(), String> {
+        if rp["kind"] == "zst" {
+            return match env::catch(layout_hint_inputs) {
+                Ok(r) => r.map(|_| ()),
+                Err(m) => Err(m),
+            };
+        }
         let syms: Vec<u8> = serde_json::from_value(rp["syms"].clone()).map_err(|e| format!("MACHINERY: bad replay: {e}"))?;
         let hint: Option<usize> = serde_json::from_value(rp["hint"].clone()).map_err(|e| format!("MACHINERY: bad replay: {e}"))?;
         let fail: Option<usize> = serde_json::from_value(rp["fail_at"].clone()).map_err(|e| format!("MACHINERY: bad replay: {e}"))?;
